@@ -27,6 +27,7 @@ typedef struct { void *p; size_t n; int lib; } ent_t;
 static ent_t tab[TABSZ];
 static void *const TOMB = (void *)1;
 static pthread_mutex_t mu = PTHREAD_MUTEX_INITIALIZER;
+static long foreign_frees;
 static long lib_blocks, lib_bytes, all_blocks, unknown_frees, dl_opens, dl_closes, lib_allocs_total, lib_frees_total;
 static __thread int inside;
 
@@ -109,6 +110,7 @@ static int rec_del(void *p, int by_lib)
         size_t j = (h + i) & (TABSZ - 1);
         if (tab[j].p == NULL) break;
         if (tab[j].p == p) {
+            if (by_lib && !tab[j].lib) foreign_frees++;      /* the library released a block the caller allocated */
             if (tab[j].lib) { lib_blocks--; lib_bytes -= (long)tab[j].n; lib_frees_total++; }
             all_blocks--;
             tab[j].p = TOMB; found = 1; break;
@@ -196,7 +198,7 @@ void ledger_get(ledger_t *l)
 {
     pthread_mutex_lock(&mu);
     l->lib_blocks = lib_blocks; l->lib_bytes = lib_bytes; l->dl_open = dl_opens - dl_closes;
-    l->unknown_frees = unknown_frees; l->lib_allocs_total = lib_allocs_total; l->lib_frees_total = lib_frees_total;
+    l->unknown_frees = unknown_frees + foreign_frees; l->lib_allocs_total = lib_allocs_total; l->lib_frees_total = lib_frees_total;
     pthread_mutex_unlock(&mu);
 }
 int ledger_leakcheck(void) { return 0; }
